@@ -43,11 +43,13 @@ def gen_poly(rng, quick=True, max_rows=None, max_cols=None, wide=False):
     return {"bnds": bnds, "rows": rows}
 
 
-def real_poly(p, ids=None):
+def real_poly(p, ids=None, dtype=None):
     nc = len(p["bnds"])
     ids = ids or [f"x{j}" for j in range(nc)]
     vs = [puan.variable.support_vector_variable()] + [puan.variable(i, tuple(b)) for i, b in zip(ids, p["bnds"])]
     arr = np.array([[r[0]] + list(r[1]) for r in p["rows"]], dtype=np.int64).reshape(len(p["rows"]), nc + 1)
+    if dtype is not None:
+        return pnd.ge_polyhedron(arr, variables=vs, dtype=np.dtype(dtype).type)
     return pnd.ge_polyhedron(arr, variables=vs)
 
 
